@@ -215,3 +215,9 @@ def _bounded_stock(tier, repo):
 
 REG.bounded_check("bounded#stock_templates_render_identically_with_and_without_the_library", P, _bounded_stock,
                   note="clause 1 beyond the two patched methods: 284 stock templates x 3 contexts are rendered in two processes (stock Django / Django with django_components installed) and output, error type and the Context left behind must be identical for every template stock Django accepts; the multi-line-tag templates are the region of the known finding F-C10a")
+
+# clause 1 delegates "the lexers agree on templates without quoted block tags" to the C09 contracts; the one syntactic
+# obligation those contracts rest on (the shape of the take-until patterns) is therefore an obligation of C10 as well
+import contracts.c09 as _c09  # noqa: E402
+
+REG.syntactic_check("syn#take_until_patterns", P, _c09.check_take_until_patterns)
